@@ -27,7 +27,16 @@ Record obs := mkObs {
   o_cb : list cbev
 }.
 
-Definition case := (config * obs * list (step * obs))%type.
+(** a step's observation: in full, or "every observable as before" with the result code *)
+Inductive ob := Full (o : obs) | Same (code : Z).
+Definition resolve (p : obs) (b : ob) : obs :=
+  match b with
+  | Full o => o
+  | Same c => mkObs c None (o_height p) (o_time p) (o_bals p) (o_binds p) (o_ctxs p) (o_reqs p) (o_vols p)
+                    (o_earned p) (o_oearned p) (o_newq p) (o_newmark p) (o_expq p) (o_expmark p) []
+  end.
+
+Definition case := (config * obs * list (step * ob))%type.
 
 Definition bind_tuple (b : binding) : bind_t :=
   (b_dep b, b_pd b, b_pa b, b_qos b, b_avail b, b_dis b, b_owner b).
@@ -334,10 +343,11 @@ Definition update_track (tr : track) (p : obs) (st : step) (o : obs) : track :=
 Definition ledger_of (o : obs) : ledger := fold_left (fun l e => set (fst e) (snd e) l) (o_bals o) [].
 
 Fixpoint check_from (c : config) (s : state) (p : obs) (seen : list reqid) (tr : track)
-    (l : list (step * obs)) (i : Z) (corr p7 c7 p8 c8 : Z) : Z * Z * Z * Z * Z :=
+    (l : list (step * ob)) (i : Z) (corr p7 c7 p8 c8 : Z) : Z * Z * Z * Z * Z :=
   match l with
   | [] => (corr, p7, c7, p8, c8)
-  | (st, o) :: rest =>
+  | (st, b) :: rest =>
+      let o := resolve p b in
       let r := exec_step c s st in
       let s' := match r with Okk s1 => s1 | _ => s end in
       let corr' := if (corr <? 0) && negb (corr_step s st r s' o) then i else corr in
